@@ -764,8 +764,9 @@ impl<'a> Runtime<'a> {
                 let slot = mem::replace(slot, Value::Null);
                 Ok(slot)
             }
-            Expr::Member { .. } => {
-                unreachable!("Semantic analysis guarantees member access is always a function call")
+            // `x.len` without a call: the static checker defers member validation to run time.
+            Expr::Member { span, .. } => {
+                Err(RuntimeError::new(RuntimeErrorKind::TypeMismatch, *span))
             }
             Expr::Call { .. } => self.eval_function_call(expr),
         }
@@ -783,7 +784,8 @@ impl<'a> Runtime<'a> {
 
         let func_name = match callee {
             Expr::Var(name, ..) => *name,
-            _ => unreachable!("Semantic analysis guarantees callee is variable or member"),
+            // `a[0]()`, `f()()`: only names and methods can be called.
+            _ => return Err(RuntimeError::new(RuntimeErrorKind::TypeMismatch, *span)),
         };
 
         if let Some(builtin) = GlobalBuiltin::from_name(func_name) {
@@ -1306,7 +1308,7 @@ impl<'a> Runtime<'a> {
                 }
             }
             Expr::Index { .. } => {
-                let (base_expr, base_var, index_exprs) = self.flatten_index_target(object);
+                let (base_expr, base_var, index_exprs) = self.flatten_index_target(object)?;
 
                 let mut evaluated_indices = Vec::with_capacity_in(index_exprs.len(), self.frame);
                 for (index_expr, index_span) in &index_exprs {
@@ -1389,7 +1391,7 @@ impl<'a> Runtime<'a> {
                 }
             }
             Expr::Index { .. } => {
-                let (base_expr, base_var, index_exprs) = self.flatten_index_target(object);
+                let (base_expr, base_var, index_exprs) = self.flatten_index_target(object)?;
 
                 let mut evaluated_indices = Vec::with_capacity_in(index_exprs.len(), self.frame);
                 for (index_expr, index_span) in &index_exprs {
@@ -1666,7 +1668,7 @@ impl<'a> Runtime<'a> {
         value: Value<'a>,
         span: Span,
     ) -> Result<(), RuntimeError> {
-        let (base_expr, base_var, index_exprs) = self.flatten_index_target(target);
+        let (base_expr, base_var, index_exprs) = self.flatten_index_target(target)?;
 
         let mut evaluated_indices = Vec::with_capacity_in(index_exprs.len(), self.frame);
         for (index_expr, index_span) in &index_exprs {
@@ -1715,7 +1717,7 @@ impl<'a> Runtime<'a> {
     fn flatten_index_target(
         &self,
         mut target: ExprRef<'a>,
-    ) -> (ExprRef<'a>, &'a str, Vec<(ExprRef<'a>, Span), &'a Arena>) {
+    ) -> Result<(ExprRef<'a>, &'a str, Vec<(ExprRef<'a>, Span), &'a Arena>), RuntimeError> {
         let mut indices = Vec::new_in(self.frame);
         loop {
             match target {
@@ -1725,9 +1727,12 @@ impl<'a> Runtime<'a> {
                 }
                 Expr::Var(name, ..) => {
                     indices.reverse();
-                    return (target, *name, indices);
+                    return Ok((target, *name, indices));
                 }
-                _ => unreachable!("Semantic analysis guarantees valid index assignment target",),
+                // `f()[0] get 2`, `f()[0].push(1)`: the chain does not start at a variable.
+                other => {
+                    return Err(RuntimeError::new(RuntimeErrorKind::TypeMismatch, other.span()));
+                }
             }
         }
     }
